@@ -78,6 +78,7 @@ func c08Alphabet() []sym {
 	}
 	a = append(a,
 		sym{K: 'H', ID: idEven, ES: true, EH: true}, sym{K: 'H', ID: idLow, ES: true, EH: true},
+		sym{K: 'R', ID: idEven}, sym{K: 'W', ID: idEven, W: 1}, sym{K: 'D', ID: idEven, ES: true}, sym{K: 'P', ID: idEven}, sym{K: 'R', ID: idEven + 4},
 		sym{K: 'D', ID: idFresh, ES: true}, sym{K: 'R', ID: idFresh}, sym{K: 'W', ID: idFresh, W: 1}, sym{K: 'P', ID: idFresh}, sym{K: 'P', ID: idLow},
 		sym{K: 'p'}, sym{K: 's'}, sym{K: 'w'}, sym{K: 'u'},
 	)
@@ -189,7 +190,11 @@ func (m *model) step(f sym) expect {
 		return none("CONTINUATION continues/completes the block", stName(st)+"/C")
 	}
 	if f.ID%2 == 0 {
-		// a client cannot open, and never had, a server-initiated stream
+		if f.K == 'P' && !f.Self {
+			// 6.3 allows PRIORITY for idle streams; 5.1.1 lets a server regard an even id from a client as a protocol error: both accepted
+			return expect{None: true, C: []uint32{cProtocol}, Why: "PRIORITY on an idle server-initiated id", Key: "even/P"}
+		}
+		// a client cannot open, and the server never pushed, a server-initiated stream: it is idle
 		return cErr("frame on an even (server-initiated, never opened) stream id", "even/"+string(f.K), cProtocol)
 	}
 	st := m.get(f.ID)
@@ -387,6 +392,8 @@ func (m *model) commit(f sym, e expect, serverReset bool) {
 
 type c08Gen struct {
 	remaining map[uint32][]byte // rest of an open header block per stream
+	// wholeInHeaders: a HEADERS frame without END_HEADERS still carries the entire block, so every CONTINUATION is empty
+	wholeInHeaders bool
 }
 
 func reqBlock(p *rt.Peer, id uint32, tag string) []byte {
@@ -455,6 +462,9 @@ func (g *c08Gen) bytesFor(p *rt.Peer, m *model, f sym, caseID string, seq int) [
 			fl |= wire.FEndHeaders
 		} else {
 			cut := len(blk) / 2
+			if g.wholeInHeaders {
+				cut = len(blk)
+			}
 			frag = blk[:cut]
 			g.remaining[f.ID] = blk[cut:]
 		}
@@ -520,7 +530,7 @@ func c08Run(r *vf.Run, t *testing.T, id string, seq []sym, parked bool) {
 	res := rt.RunBubble(t, id, 30*time.Second, func() {
 		e := rt.NewServerEnv(id, rt.ServerOpts{})
 		m := &model{s: map[uint32]*mStream{}, parked: parked}
-		g := &c08Gen{remaining: map[uint32][]byte{}}
+		g := &c08Gen{remaining: map[uint32][]byte{}, wholeInHeaders: vf.Hash(id)%2 == 0}
 		var gate chan struct{}
 		if parked {
 			gate = e.H.NewGate()
